@@ -5,20 +5,18 @@
       NOT A PRODUCT OF STABILIZERS  (`Qec.Distance.IsDistanceSpan n S d`; the logical operators do not occur in
       the statement),
 
-  for the planar (R, C ≥ 2), toric (R, C ≥ 2), rotated planar (R, C ≥ 3) and rotated toric (even R, C ≥ 2) codes,
-  and for the five-qubit and Steane codes.
+  for the planar (R, C ≥ 2), toric (R, C ≥ 2), rotated planar (R, C ≥ 3), rotated toric (even R, C ≥ 2) and
+  colour 6.6.6 (odd L ≥ 3) codes, and for the five-qubit and Steane codes — every code family of the package.
 
   Ingredients, all proved elsewhere and only instantiated here:
     * Props/C08.lean: `planar_isDistance`, `toric_isDistance`, `rotatedplanar_isDistance`, `rotatedtoric_isDistance`,
-      `distance_basic_five`, `distance_basic_steane` (distance w.r.t. the supplied logicals) and
+      `color666_isDistance` (Props/C08/Color666.lean), `distance_basic_five`, `distance_basic_steane` (distance w.r.t. the supplied logicals) and
       `isDistanceSpan_of_isDistance` (the bridge, with normaliser completeness `hcomp` and `hLn` as hypotheses);
-    * C07 `planar_valid`, `toric_valid`, `rotated_planar_valid`, `rtoric_valid`, `five_qubit_valid`,
-      `steane_valid` : `ValidCode …`;
+    * C07 `planar_valid`, `toric_valid`, `rotated_planar_valid`, `rtoric_valid`, `color666_valid`,
+      `five_qubit_valid`, `steane_valid` : `ValidCode …`;
     * normaliser completeness for every valid code: Lemmas/Normaliser.lean via
       Lemmas/NormaliserBridge.lean `normaliserComplete_of_valid` — this discharges `hcomp`; `hLn` (the supplied
       logicals commute with the stabilizers) is part of `ValidCode`.
-
-  NOT covered: the colour 6.6.6 code (its all-sizes lower bound is STATED, NOT PROVED in Props/C08.lean).
 -/
 import QecVerif.Props.C08
 import QecVerif.Lemmas.NormaliserBridge
@@ -71,6 +69,13 @@ theorem rotatedtoric_isDistanceSpan (R C : Int) (hR : 2 ≤ R) (hC : 2 ≤ C) (h
     (RotatedToric.nkd R C).2.2 = min R C :=
   ⟨isDistanceSpan_of_valid _ 2 _ _ _ (C07.RotatedToric.rtoric_valid R C ⟨hR, hC, hRe, hCe⟩) _
     (rotatedtoric_isDistance R C hR hC hRe hCe).1, rfl⟩
+
+/-- **colour 6.6.6 code, all odd L ≥ 3** (`d = L`) -/
+theorem color666_isDistanceSpan (L : Int) (hL : 3 ≤ L) (hodd : L % 2 = 1) :
+    IsDistanceSpan (Color666.nQubits L).toNat (Color666.stabilizers L) (Color666.nkd L).2.2.toNat ∧
+    (Color666.nkd L).2.2 = L :=
+  ⟨isDistanceSpan_of_valid _ 1 _ _ _ (C07.Color666.color666_valid L hL hodd) _
+    (color666_isDistance L hL hodd).1, rfl⟩
 
 /-- **five-qubit code**: 3 is the minimum weight of an operator commuting with the four generators that is not a
     product of them -/
